@@ -5,10 +5,16 @@ C07 — autopack planning is well-formed for EVERY pack size distribution.
 
 All theorems are universally quantified over every list of packs (any length,
 any counts, duplicates, any order, any pack identities) and every total
-revision count `total ≥` the sum of the per-pack counts (the real caller
-passes exactly the sum: `CombinedGraphIndex.key_count()` adds the per-pack key
-counts).  `plan_error_witness` shows the hypothesis is needed: with
-`total <` sum the real planner raises `IndexError`.
+revision count `total ≥` the sum of the per-pack counts.  The real caller
+passes exactly the sum (`keyCount`: `CombinedGraphIndex.key_count()` adds the
+per-pack key counts, revisions duplicated across packs counted once per pack —
+checked on a real repository holding duplicated revisions on every run), for
+which `autopack_real_ok`/`autopack_real_spec`/`autopack_execute_bound` need no
+hypothesis on the total.  `plan_error_witness` shows what a de-duplicating
+`key_count` would do: with `total <` sum the real planner raises `IndexError`.
+`maxPackCount_eq_digit_sum` ties the bound to the digits of `str(total)`;
+`execute_*` describe `_execute_pack_operations` (one new pack per combination,
+duplicates stored once).
 
 The loop invariant (`loop_spec`) and the complete description of the planner
 (`plan_spec`) are in `Lemmas/C07.lean`.
@@ -130,6 +136,83 @@ theorem autopack_spec (packs : List Pack) (total : Nat)
       · simp [doAutopack, hlen, filter_pos_id packs hpos, h']
       · exact plan_bound packs total _ hpos htot h' (by simp)
 
+/-! ### the caller's total, carrying out the plan, and the digit sum -/
+
+/-- `_max_pack_count(total)` is literally the sum of the decimal digits of
+`str(total)` (`Nat.toDigits 10` is the digit list `Nat.repr` prints), so
+"digit sum" in the statements above is the real digit sum and not an artefact
+of the fuelled recursion of the model. -/
+theorem maxPackCount_eq_digit_sum (t : Nat) (ht : 0 < t) :
+    maxPackCount t = ((Nat.toDigits 10 t).map charDigit).sum := by
+  have := digitSumAux_eq_toDigits t t (Nat.le_refl t)
+  simp only [maxPackCount, Nat.ne_of_gt ht, if_false] at this ⊢
+  exact this
+
+/-- With the total the real caller passes (`key_count()` ADDS the per-pack
+counts, revisions duplicated across packs included — `keyCount`) planning
+never fails: every pack list, zero-revision packs and duplicates included, no
+side condition. -/
+theorem autopack_real_ok (packs : List Pack) :
+    ∃ r, doAutopack (keyCount packs) packs = .ok r :=
+  autopack_ok packs (keyCount packs) (Nat.le_refl _)
+
+/-- `autopack_spec` for the total the real caller passes: no hypothesis on the total. -/
+theorem autopack_real_spec (packs : List Pack) (hpos : ∀ p ∈ packs, 0 < p.1) :
+    (packs.length ≤ maxPackCount (keyCount packs) ∧ doAutopack (keyCount packs) packs = .ok none) ∨
+    (∃ ps kept, doAutopack (keyCount packs) packs = .ok (some [(cnt ps, ps)]) ∧ 2 ≤ ps.length ∧
+      (ps ++ kept).Perm packs ∧
+      packsAfter packs.length [(cnt ps, ps)] ≤ maxPackCount (keyCount packs)) :=
+  autopack_spec packs (keyCount packs) hpos (Nat.le_refl _)
+
+/-- Carrying out a single combination `ps` of `packs` (`ps ++ kept` a
+permutation of `packs`) replaces exactly the packs of `ps` by one new pack
+holding their revisions once (`dups` = number of revision-index entries of
+`ps` that are duplicates of another entry of `ps`): the collection afterwards
+is `kept` plus the new pack. -/
+theorem execute_perm (dups : Nat) (packs ps kept : List Pack) (hne : ps ≠ [])
+    (hperm : (ps ++ kept).Perm packs) :
+    (executeOpsDup dups packs [(cnt ps, ps)]).Perm ((cnt ps - dups, 0) :: kept) :=
+  executeOpsDup_single dups (cnt ps) packs ps kept hne hperm
+
+/-- … so the number of packs afterwards is the arithmetic `packsAfter` that
+`plan_bound` bounds, whatever the number of duplicated revisions … -/
+theorem execute_length (dups : Nat) (packs ps kept : List Pack) (hne : ps ≠ [])
+    (hperm : (ps ++ kept).Perm packs) :
+    (executeOpsDup dups packs [(cnt ps, ps)]).length = packsAfter packs.length [(cnt ps, ps)] := by
+  have h1 := (execute_perm dups packs ps kept hne hperm).length_eq
+  have hl : ps.length + kept.length = packs.length := by simpa using hperm.length_eq
+  have hpos : 0 < ps.length := List.length_pos_iff.mpr hne
+  have hnz : (ps.length != 0) = true := by simp [hne]
+  simp only [packsAfter, List.map_cons, List.map_nil, List.sum_cons, List.sum_nil,
+    List.filter_cons, hnz, if_true, List.filter_nil, List.length_cons, List.length_nil] at h1 ⊢
+  omega
+
+/-- … and no revision-index entry is lost except the `dups` duplicates. -/
+theorem execute_cnt (dups : Nat) (packs ps kept : List Pack) (hne : ps ≠ [])
+    (hperm : (ps ++ kept).Perm packs) (hd : dups ≤ cnt ps) :
+    cnt (executeOpsDup dups packs [(cnt ps, ps)]) + dups = cnt packs := by
+  rw [cnt_perm (execute_perm dups packs ps kept hne hperm), cnt_cons, ← cnt_perm hperm]
+  have : cnt (ps ++ kept) = cnt ps + cnt kept := by simp [cnt, counts]
+  simp only at *
+  omega
+
+/-- The whole of `_do_autopack` on a collection of packs with positive counts
+and the total the real caller passes: whatever it plans can be carried out,
+and afterwards the number of packs is within `_max_pack_count` of the total
+the plan was made for — also when `dups` revisions were duplicated. -/
+theorem autopack_execute_bound (dups : Nat) (packs : List Pack) (ops : List Op)
+    (hpos : ∀ p ∈ packs, 0 < p.1)
+    (h : doAutopack (keyCount packs) packs = .ok (some ops)) :
+    (executeOpsDup dups packs ops).length ≤ maxPackCount (keyCount packs) := by
+  rcases autopack_real_spec packs hpos with ⟨_, h'⟩ | ⟨ps, kept, h', h2, h3, h4⟩
+  · rw [h'] at h; cases h
+  · rw [h'] at h
+    injection h with h; injection h with h
+    subst h
+    have hne : ps ≠ [] := by intro h; subst h; simp at h2
+    rw [execute_length dups packs ps kept hne h3]
+    exact h4
+
 /-- Why `cnt packs ≤ total` is needed: with a total smaller than the sum of
 the per-pack counts the planner runs out of buckets — `IndexError` in the real
 code (reproduced by the harness on the real method). -/
@@ -162,5 +245,20 @@ example : [((10 : Nat), (1 : Nat)), (10, 2)].length ≤ maxPackCount 20 := by de
 example : doAutopack 2 [(1, 1), (1, 2), (0, 3)] = .ok (some []) := by decide
 
 example : packDistribution 2015 = [1000, 1000, 10, 1, 1, 1, 1, 1] := by decide
+
+/-- `execute_perm`/`execute_length`/`execute_cnt` on a collection where the two
+combined packs share one revision (3 + 1 entries, 3 distinct revisions) -/
+example : executeOpsDup 1 [(18, 1), (9, 2), (3, 3), (1, 4), (10, 5)] [(4, [(3, 3), (1, 4)])]
+    = [(3, 0), (18, 1), (9, 2), (10, 5)] := by decide
+
+example : ([((3 : Nat), (3 : Nat)), (1, 4)] ++ [(18, 1), (9, 2), (10, 5)]).Perm
+    [(18, 1), (9, 2), (3, 3), (1, 4), (10, 5)] := by decide
+
+/-- `autopack_execute_bound`: the planner's view of the duplicated-revision
+repository of the finding reproduced by the harness -/
+example : doAutopack (keyCount [(18, 1), (9, 2), (2, 3), (1, 4), (10, 5)])
+    [(18, 1), (9, 2), (2, 3), (1, 4), (10, 5)] = .ok (some [(3, [(2, 3), (1, 4)])]) := by decide
+
+example : maxPackCount 2015 = 8 ∧ ((Nat.toDigits 10 2015).map charDigit).sum = 8 := by decide
 
 end BreezyVerif.C07
